@@ -96,6 +96,8 @@ type World struct {
 	NoFaults bool
 	// CallErrs records what Invoke returned for each call().
 	CallErrs []string
+	argBufs  [][]ugo.Object
+	argDepth int
 }
 
 // NewWorld instantiates a spec.
@@ -109,6 +111,7 @@ func NewWorld(spec *WorldSpec, rc *RunCtx) *World {
 		"trace":   &ugo.Function{Name: "trace", ValueEx: w.fnTrace},
 		"obj":     &ugo.Function{Name: "obj", ValueEx: w.fnObj},
 		"callrep": &ugo.Function{Name: "callrep", ValueEx: w.fnCallRep},
+		"syncmap": &ugo.Function{Name: "syncmap", ValueEx: w.fnSyncMap},
 		"WID":     ugo.String(spec.Name),
 	}
 	return w
@@ -218,7 +221,10 @@ func (w *World) fnCall(c ugo.Call) (ugo.Object, error) {
 		pooled = w.Spec.Pooled[k]
 		repeat = w.Spec.Repeat[k]
 	}
-	args := make([]ugo.Object, 0, c.Len()-1)
+	// like many hosts, the world re-uses one argument buffer for all its invocations (nested ones take the next
+	// level): a callee must never see later calls' arguments through anything it kept from this call
+	args := w.argBuffer()
+	defer w.argRelease()
 	for i := 1; i < c.Len(); i++ {
 		args = append(args, c.Get(i))
 	}
@@ -240,6 +246,36 @@ func (w *World) fnCall(c ugo.Call) (ugo.Object, error) {
 	return ret, nil
 }
 
+// argBuffer hands out the (re-used) argument buffer of the current nesting level.
+func (w *World) argBuffer() []ugo.Object {
+	if w.argDepth >= len(w.argBufs) {
+		w.argBufs = append(w.argBufs, make([]ugo.Object, 0, 16))
+	}
+	b := w.argBufs[w.argDepth][:0]
+	w.argDepth++
+	return b
+}
+
+func (w *World) argRelease() {
+	w.argDepth--
+	// scribble over the buffer: what the callee received was only valid during the call
+	b := w.argBufs[w.argDepth][:cap(w.argBufs[w.argDepth])]
+	for i := range b {
+		b[i] = ugo.String("stale-host-argument")
+	}
+}
+
+// fnSyncMap returns a SyncMap holding a host object (its element callbacks run under the map's lock).
+func (w *World) fnSyncMap(c ugo.Call) (ugo.Object, error) {
+	id := 0
+	if c.Len() > 0 {
+		if v, ok := c.Get(0).(ugo.Int); ok {
+			id = int(v)
+		}
+	}
+	return &ugo.SyncMap{Value: ugo.Map{"o": &HostObj{W: w, ID: id, occ: map[string]int{}}}}, nil
+}
+
 // fnCallRep invokes a script function n times on one Invoker handle
 // (Acquire once, Invoke n times, Release) and returns the last result; it
 // stops at the first error, like the equivalent in-script loop.
@@ -254,7 +290,8 @@ func (w *World) fnCallRep(c ugo.Call) (ugo.Object, error) {
 	if k < len(w.Spec.Pooled) {
 		pooled = w.Spec.Pooled[k]
 	}
-	args := make([]ugo.Object, 0, c.Len()-2)
+	args := w.argBuffer()
+	defer w.argRelease()
 	for i := 2; i < c.Len(); i++ {
 		args = append(args, c.Get(i))
 	}
@@ -327,7 +364,7 @@ func itoa(n int) string {
 const Prelude = "global (log, op, choose, call, trace, WID)\n"
 
 // PreludeObj additionally declares obj (host objects).
-const PreludeObj = "global (log, op, choose, call, trace, WID, obj)\n"
+const PreludeObj = "global (log, op, choose, call, trace, WID, obj, syncmap)\n"
 
 // PreludeCall additionally declares callrep.
 const PreludeCall = "global (log, op, choose, call, trace, WID, callrep)\n"
